@@ -9,6 +9,7 @@ pub mod c02;
 pub mod c03;
 pub mod c04;
 pub mod c05;
+pub mod c06;
 pub mod c07;
 pub mod c08;
 pub mod c09;
@@ -34,6 +35,7 @@ pub const ALL: &[Property] = &[
     Property { id: "C03", run: c03::run, replay: c03::replay },
     Property { id: "C04", run: c04::run, replay: c04::replay },
     Property { id: "C05", run: c05::run, replay: c05::replay },
+    Property { id: "C06", run: c06::run, replay: c06::replay },
     Property { id: "C07", run: c07::run, replay: c07::replay },
     Property { id: "C08", run: c08::run, replay: c08::replay },
     Property { id: "C09", run: c09::run, replay: c09::replay },
